@@ -120,7 +120,8 @@ def build_all(need_coq=True):
             mk = os.path.join(COQ, "Makefile")
             if newer(os.path.join(COQ, "_CoqProject"), mk):
                 run(["coq_makefile", "-f", "_CoqProject", "-o", "Makefile"], cwd=COQ, check=True)
-            rc, out, _ = run(["make", "-k", "-j%d" % NPROC], cwd=COQ, timeout=3000)
+            # every coqc under a memory limit (a runaway tactic must not take the machine down)
+            rc, out, _ = run(["bash", "-c", "ulimit -v 24000000; exec make -k -j%d" % NPROC], cwd=COQ, timeout=3000)
             st["coq_log"] = out
             if rc != 0:
                 st["coq_ok"] = False
